@@ -1,9 +1,195 @@
 import KG.Base.Json
-/-! Driver entry points for property C18 (filled in by the C18 model). -/
-namespace KG.Driver.C18
-open Lean
+import KG.Spec.Reclaim
+/-! Driver entry points for property C18 (reclaiming dead gateway instances).
 
-/-- `handle method args`: `none` when the method is unknown. -/
-def handle (_m : String) (_a : Json) : Option (Except String Json) := none
+* `C18.run   {shards, ops}`            → `{init, steps:[{out, state}]}`: the model run on a history.
+* `C18.judge {shards, ops, oks, states}` → `{violations:[{step, class}]}`: the C18 judge (`KG.Spec.Reclaim.judgeStep`)
+  evaluated on states observed on the implementation (`states[0]` initial, `states[k+1]` after op `k`).
+* `C18.shard {shards, names}`          → the model's `GetShardID` of each name.
+* `C18.consts`                         → the regenerated constants.
+-/
+namespace KG.Driver.C18
+open Lean KG KG.Model.Reclaim KG.Spec.Reclaim
+
+/-! ### decoding -/
+
+def optInt (j : Json) (k : String) : Except String (Option Int) :=
+  match J.optObj j k with
+  | none => pure none
+  | some v => do pure (some (← v.getInt?))
+
+def optPair (j : Json) (k : String) : Except String (Option (Int × Int)) :=
+  match J.optObj j k with
+  | none => pure none
+  | some v => do
+    let a ← v.getArr?
+    match a.toList with
+    | [x, y] => pure (some (← x.getInt?, ← y.getInt?))
+    | _ => throw s!"{k}: pair expected"
+
+def optHex (j : Json) (k : String) : Except String (Option Str) :=
+  match J.optObj j k with
+  | none => pure none
+  | some v => do pure (some (← J.asHex v))
+
+def decItem (j : Json) : Except String Item := do
+  pure ⟨← J.getHex j "name", ← optInt j "mif", ← optPair j "tb"⟩
+
+def decSchema (j : Json) : Except String Schema := do
+  pure ⟨← J.getHex j "name", ← optInt j "gmif", ← optPair j "gtb"⟩
+
+def decList {α} (f : Json → Except String α) (j : Json) (k : String) : Except String (List α) := do
+  (← J.getArr j k).toList.mapM f
+
+def decKind (j : Json) : Except String (Str × Kind) := do
+  let n ← J.getHex j "name"
+  match ← J.getStr j "kind" with
+  | "mif" => pure (n, .mif)
+  | "tb" => pure (n, .tb)
+  | "unknown" => pure (n, .unknown)
+  | k => throw s!"bad kind {k}"
+
+def decOp (j : Json) : Except String Op := do
+  match ← J.getStr j "op" with
+  | "heartbeat" => pure (.heartbeat (← J.getHex j "i") (← J.getNat j "t"))
+  | "report" => pure (.report (← J.getHex j "u") (← J.getHex j "i") (← decList decKind j "items") (← decList decItem j "quota"))
+  | "acquire" =>
+      let reqs ← decList (fun r => do pure ((← J.getHex r "fc"), (← J.getInt r "tokens"))) j "reqs"
+      pure (.acquire (← J.getHex j "u") (← J.getHex j "i") (← J.getInt j "rid") reqs)
+  | "cleanupTimeout" => pure (.cleanupTimeout (← J.getNat j "now"))
+  | "cleanupUnknown" => pure .cleanupUnknown
+  | "setLeader" => pure (.setLeader (← J.getNat j "s") (← J.getBool j "b"))
+  | "leaderCheck" => pure .leaderCheck
+  | "list" => pure (.list (← J.getHex j "u") (← decList decSchema j "schemas"))
+  | "unlist" => pure (.unlist (← J.getHex j "u"))
+  | "handle" => pure (.handle (← J.getHex j "u"))
+  | o => throw s!"unknown op {o}"
+
+def decCond (j : Json) : Except String (Nat × Cond) := do
+  pure (← J.getNat j "sh", ⟨← J.getHex j "name", ← J.getHex j "u", ← J.getHex j "i", ← optHex j "label",
+    ← decList decItem j "items", ← decList decItem j "status"⟩)
+
+def decStateEntry (j : Json) : Except String (Inst × IState) := do
+  let a ← j.getArr?
+  match a.toList with
+  | [i, c, r] => pure (← J.asHex i, ⟨← c.getInt?, ← r.getInt?⟩)
+  | _ => throw "state entry: [inst, count, reqId] expected"
+
+def decFC (j : Json) : Except String (Nat × Ups × FC) := do
+  pure (← J.getNat j "sh", ← J.getHex j "u", ⟨← J.getHex j "name", ← J.getBool j "mif", ← J.getInt j "max",
+    ← J.getInt j "burst", ← J.getInt j "count", ← decList decStateEntry j "states"⟩)
+
+def decHb (j : Json) : Except String (Inst × Nat) := do
+  let a ← j.getArr?
+  match a.toList with
+  | [i, t] => pure (← J.asHex i, ← t.getNat?)
+  | _ => throw "hb entry: [inst, t] expected"
+
+def decState (j : Json) : Except String State := do
+  let nats (k : String) : Except String (List Nat) := do (← J.getArr j k).toList.mapM (·.getNat?)
+  pure {
+    hb := ← decList decHb j "hb",
+    leaders := ← nats "leaders",
+    shards := ← nats "shards",
+    clusters := ← decList (fun c => do pure (← J.getNat c "sh", ← J.getHex c "u", ← decList decSchema c "spec")) j "clusters",
+    conds := ← decList decCond j "conds",
+    fcs := ← decList decFC j "fcs",
+    listed := ← decList (fun c => do pure (← J.getHex c "u", ← decList decSchema c "schemas")) j "listed" }
+
+/-! ### encoding -/
+
+def encOptInt : Option Int → Json
+  | none => Json.null
+  | some v => J.int v
+
+def encOptPair : Option (Int × Int) → Json
+  | none => Json.null
+  | some (a, b) => Json.arr #[J.int a, J.int b]
+
+def encItem (it : Item) : Json := J.obj [("name", J.hex it.name), ("mif", encOptInt it.mif), ("tb", encOptPair it.tb)]
+
+def encSchema (sc : Schema) : Json :=
+  J.obj [("name", J.hex sc.name), ("gmif", encOptInt sc.gmif), ("gtb", encOptPair sc.gtb)]
+
+def encArr {α} (f : α → Json) (l : List α) : Json := Json.arr (l.map f).toArray
+
+def encCond (r : Nat × Cond) : Json :=
+  J.obj [("sh", J.nat r.1), ("name", J.hex r.2.name), ("u", J.hex r.2.upstream), ("i", J.hex r.2.inst),
+    ("label", match r.2.label with | none => Json.null | some l => J.hex l),
+    ("items", encArr encItem r.2.items), ("status", encArr encItem r.2.status)]
+
+def encFC (r : Nat × Ups × FC) : Json :=
+  let f := r.2.2
+  J.obj [("sh", J.nat r.1), ("u", J.hex r.2.1), ("name", J.hex f.name), ("mif", J.bool f.isMif), ("max", J.int f.max),
+    ("burst", J.int f.burst), ("count", J.int f.count),
+    ("states", encArr (fun p : Inst × IState => Json.arr #[J.hex p.1, J.int p.2.count, J.int p.2.reqId]) f.states)]
+
+def encState (s : State) : Json :=
+  J.obj [
+    ("hb", encArr (fun p : Inst × Nat => Json.arr #[J.hex p.1, J.nat p.2]) s.hb),
+    ("leaders", encArr J.nat s.leaders),
+    ("shards", encArr J.nat s.shards),
+    ("clusters", encArr (fun r : Nat × Ups × List Schema =>
+        J.obj [("sh", J.nat r.1), ("u", J.hex r.2.1), ("spec", encArr encSchema r.2.2)])
+        (s.clusters.filter fun r => !r.2.2.isEmpty)),
+    ("conds", encArr encCond s.conds),
+    ("fcs", encArr encFC s.fcs),
+    ("listed", encArr (fun r : Ups × List Schema => J.obj [("u", J.hex r.1), ("schemas", encArr encSchema r.2)]) s.listed)]
+
+def encOut : Out → Json
+  | .unit => J.obj [("k", Json.str "unit")]
+  | .err e => J.obj [("k", Json.str "err"), ("e", Json.str e)]
+  | .reported l => J.obj [("k", Json.str "reported"), ("label", J.hex l)]
+  | .acquired rs => J.obj [("k", Json.str "acquired"), ("rs", encArr (fun r : Str × Bool × Int × String =>
+      J.obj [("fc", J.hex r.1), ("accept", J.bool r.2.1), ("limit", J.int r.2.2.1), ("err", Json.str r.2.2.2)]) rs)]
+
+/-! ### methods -/
+
+def shardFn (n : Nat) : Ups → Nat := getShardID n
+
+def runSteps (f : Ups → Nat) : State → List Op → List Json → List Json
+  | _, [], acc => acc.reverse
+  | s, op :: rest, acc =>
+    let (s', out) := step f s op
+    runSteps f s' rest (J.obj [("out", encOut out), ("state", encState s')] :: acc)
+
+def doRun (a : Json) : Except String Json := do
+  let n ← J.getNat a "shards"
+  if n = 0 then throw "panic: integer divide by zero (shard count 0)"
+  let ops ← decList decOp a "ops"
+  pure <| J.obj [("init", encState init), ("steps", Json.arr (runSteps (shardFn n) init ops []).toArray)]
+
+def judgeAll (f : Ups → Nat) : Nat → List Op → List Bool → List State → List Json → List Json
+  | k, op :: ops, ok :: oks, pre :: post :: rest, acc =>
+    let v := (judgeStep f pre op ok post).map fun c => J.obj [("step", J.nat k), ("class", Json.str c)]
+    judgeAll f (k + 1) ops oks (post :: rest) (acc ++ v)
+  | _, _, _, _, acc => acc
+
+def doJudge (a : Json) : Except String Json := do
+  let n ← J.getNat a "shards"
+  if n = 0 then throw "panic: integer divide by zero (shard count 0)"
+  let ops ← decList decOp a "ops"
+  let oks ← (← J.getArr a "oks").toList.mapM (·.getBool?)
+  let states ← decList decState a "states"
+  if states.length ≠ ops.length + 1 ∨ oks.length ≠ ops.length then throw "judge: need one state per op plus the initial one"
+  pure <| J.obj [("violations", Json.arr (judgeAll (shardFn n) 0 ops oks states []).toArray)]
+
+def doShard (a : Json) : Except String Json := do
+  let n ← J.getNat a "shards"
+  if n = 0 then throw "panic: integer divide by zero (shard count 0)"
+  let names ← J.getHexList a "names"
+  pure <| encArr (fun u => J.nat (getShardID n u)) names
+
+def doConsts : Json :=
+  J.obj [("timeoutMs", J.nat timeout), ("syncPeriodMs", J.nat KG.Gen.C18.syncPeriodMs),
+    ("cleanupPeriodMs", J.nat KG.Gen.C18.cleanupPeriodMs), ("label", Json.str KG.Gen.C18.instanceLabel)]
+
+def handle (m : String) (a : Json) : Option (Except String Json) :=
+  match m with
+  | "run" => some (doRun a)
+  | "judge" => some (doJudge a)
+  | "shard" => some (doShard a)
+  | "consts" => some (pure doConsts)
+  | _ => none
 
 end KG.Driver.C18
